@@ -144,25 +144,28 @@ theorem containers_equal (streams : List Stream) (L₁ L₂ : Layout) (h₁ : Va
     whatever the allocation table contains (cycles included) -/
 
 theorem chainLoop_total (fats : List Nat) (rem id : Nat) (s : Sectors) (rd : Bytes) :
-    Sectors.chainLoop fats rem id s rd ≠ .outOfFuel := by
-  induction rem generalizing id s rd with
-  | zero => unfold Sectors.chainLoop; split <;> simp
-  | succ rem ih =>
-    unfold Sectors.chainLoop
-    split; · simp
-    split; · simp
-    rename_i next _
-    dsimp only
-    have := ih next (s.get id rd).2.1 (s.get id rd).2.2
-    split <;> simp_all
+    Sectors.chainLoop fats rem id s rd ≠ .outOfFuel :=
+  (chainLoop_clean fats rem id s rd).2
 
-/-- on ANY allocation table `get_chain` terminates with a result or an error (never out of fuel):
-    the loop is bounded by `fats.len()` iterations -/
+/-- on ANY allocation table `get_chain` terminates with a result or an error (never out of fuel, never
+    a panic): the loop is bounded by `fats.len()` iterations -/
 theorem getChain_total (s : Sectors) (start : Nat) (fats : List Nat) (rd : Bytes) (len : Nat) :
-    s.getChain start fats rd len ≠ .outOfFuel := by
-  unfold Sectors.getChain
-  have := chainLoop_total fats fats.length start s rd
-  split <;> simp_all
+    s.getChain start fats rd len ≠ .outOfFuel ∧ ∀ m, s.getChain start fats rd len ≠ .panic m :=
+  ⟨(getChain_clean s start fats rd len).2, (getChain_clean s start fats rd len).1⟩
+
+/-- `Cfb::new` on ARBITRARY bytes terminates (DIFAT walk bounded by the file length, chains by the table) -/
+theorem new_terminates (file : Bytes) (len : Nat) : Cfb.new file len ≠ .outOfFuel := (new_clean file len).2
+
+/-- partial no-panic statement for `Cfb::new` on arbitrary bytes: the ONLY remaining panic is the
+    `assert_eq!(s.len() % 4, 0)` of `utils::to_u32` on a FAT / mini-FAT sector cut by EOF to a length that
+    is not a multiple of four (known finding, left in the code). Missing for the full statement
+    `∀ file, Cfb.new file len ≠ panic`: a length guard before those two `to_u32` calls. -/
+theorem new_no_panic_partial (file : Bytes) (len : Nat) (m : String) (h : Cfb.new file len = .panic m) :
+    m = "to_u32: assert_eq!(s.len() % 4, 0)" := (new_clean file len).1 m h
+
+/-- `get_stream` on ARBITRARY reader state never panics and always terminates -/
+theorem getStream_no_panic (c : CfbSt) (name : List Char) (rd : Bytes) :
+    (∀ m, getStream c name rd ≠ .panic m) ∧ getStream c name rd ≠ .outOfFuel := getStream_clean c name rd
 
 /-- on an acyclic (valid) chain the bound `fats.len()` is never the reason for an error: a fuel of
     the number of sectors of the chain suffices (statement of `chain_follow` with `rem = ids.length`) -/
